@@ -824,3 +824,352 @@ func ruleUnregisterBeforeStop(c *report.Ctx) {
 		}
 	}
 }
+
+// ruleCryptoKeySealing (C03/C05): each crypto key is sealed with the master key its reader opens it with.
+func ruleCryptoKeySealing(c *report.Ctx) {
+	p := c.P
+	c.Rule("crypto-key-sealing", "in every function that persists master-key parameters and crypto keys together, the public crypto key is sealed with the master key whose parameters are stored as public, and the private and entropy crypto keys with the one stored as private (getPrivKeyBtcec / getMnemonic open them with masterKeyPriv)", 3)
+	pck := fn(c, pkgKeystore, "", "putCryptoKeys")
+	pmk := fn(c, pkgKeystore, "", "putMasterKeyParams")
+	if pck == nil || pmk == nil {
+		return
+	}
+	// value → the object it was produced from: X.Encrypt(..)#0 → X ; X.Marshal() → X
+	producer := func(v ssa.Value, method string) ssa.Value {
+		if ex, ok := v.(*ssa.Extract); ok {
+			v = ex.Tuple
+		}
+		call, ok := v.(*ssa.Call)
+		if !ok {
+			return nil
+		}
+		if call.Call.IsInvoke() {
+			if call.Call.Method.Name() == method {
+				return call.Call.Value
+			}
+			return nil
+		}
+		if cal := call.Call.StaticCallee(); cal != nil && cal.Name() == method && len(call.Call.Args) > 0 {
+			return call.Call.Args[0]
+		}
+		return nil
+	}
+	same := func(a, b ssa.Value) bool {
+		if a == nil || b == nil {
+			return false
+		}
+		if a == b {
+			return true
+		}
+		// &local vs local loads
+		return p.Desc(a) == p.Desc(b) && !strings.HasPrefix(p.Desc(a), "phi(")
+	}
+	for _, f := range p.ModFuncs {
+		pk := an.FuncPkg(f)
+		if pk == nil || pk.Path() != pkgKeystore {
+			continue
+		}
+		cks, mks := calls(f, pck), calls(f, pmk)
+		if len(cks) != 1 || len(mks) != 1 {
+			continue
+		}
+		ca, ma := an.CallOf(cks[0]).Args, an.CallOf(mks[0]).Args
+		pubMaster, privMaster := producer(ma[1], "Marshal"), producer(ma[2], "Marshal")
+		for i, role := range []string{"", "public", "private", "entropy"} {
+			if i == 0 || an.IsNilConst(ca[i]) {
+				continue
+			}
+			key := sk(f) + ":" + role + "-crypto-key-sealed-by"
+			sealer := producer(ca[i], "Encrypt")
+			want := privMaster
+			wantName := "private"
+			if role == "public" {
+				want, wantName = pubMaster, "public"
+			}
+			switch {
+			case sealer == nil || want == nil:
+				if want == nil && an.IsNilConst(ma[map[string]int{"public": 1, "private": 2, "entropy": 2}[role]]) {
+					c.Fail(key, "the "+role+" crypto key is rewritten without the parameters of the master key that seals it", posOf(c, cks[0]))
+				} else {
+					c.Fail(key, "undecided: cannot resolve which master key seals the "+role+" crypto key", posOf(c, cks[0]))
+				}
+			case same(sealer, want):
+				c.OK(key, "sealed with the master "+wantName+" key", posOf(c, cks[0]))
+			default:
+				c.Fail(key, "the "+role+" crypto key is sealed with "+p.Desc(sealer)+", but the master key persisted as "+wantName+" is "+p.Desc(want)+": the wallet looks healthy (addresses, export, mnemonic) until the first signature, which fails with 'unable to decrypt' for the right passphrase", posOf(c, cks[0]))
+			}
+		}
+	}
+}
+
+// ruleSignErrorReturned (C03): a failure of the signer ends the call before the old witness can be judged.
+func ruleSignErrorReturned(c *report.Ctx) {
+	p := c.P
+	c.Rule("sign-error-returned", "in signWitnessTx the error edge of SignTxOutputWit leads to an error return without passing NewEngine/Execute: the passphrase is checked inside the signer, so an already valid witness must not turn a refused passphrase into success", 1)
+	f := fn(c, pkgWallet, "WalletManager", "signWitnessTx")
+	signTx := p.Fn(pkgTxscript, "", "SignTxOutputWit")
+	newEng := p.Fn(pkgTxscript, "", "NewEngine")
+	if f == nil || signTx == nil || newEng == nil {
+		return
+	}
+	for i, s := range calls(f, signTx) {
+		call, ok := s.(*ssa.Call)
+		if !ok {
+			continue
+		}
+		key := siteKey(f, "SignTxOutputWit-error-edge", i+1)
+		succ := map[*ssa.BasicBlock]bool{}
+		for _, sb := range p.SuccessBlocks(call) {
+			succ[sb] = true
+		}
+		if len(succ) == 0 {
+			c.Fail(key, "the error of SignTxOutputWit is not tested", posOf(c, s))
+			continue
+		}
+		bad := false
+		for sb := range succ {
+			ifb := sb.Preds[0]
+			for _, eb := range ifb.Succs {
+				if succ[eb] {
+					continue
+				}
+				srch := &an.Search{P: p, Fn: f,
+					GoalInstr:  func(in ssa.Instruction) bool { return p.IsCallTo(in, an.Set(newEng)) },
+					GoalReturn: func(r *ssa.Return, pred *ssa.BasicBlock) bool { return p.ClassifyReturn(r, pred) == an.RetSuccess },
+					CutEdge:    func(from, to *ssa.BasicBlock) bool { return to == ifb },
+				}
+				if w := srch.Run(eb, 0, ifb); w != nil {
+					bad = true
+					c.Fail(key, "after SignTxOutputWit failed (e.g. wrong passphrase) the input is still handed to the script engine: a transaction that already carries valid witnesses is returned as signed for any passphrase", posOf(c, s), w...)
+				}
+			}
+		}
+		if !bad {
+			c.OK(key, "error edge returns the error", posOf(c, s))
+		}
+	}
+}
+
+// ruleBlockRecordCount (C08/C01): the transaction counter of a block record equals the number of hashes written.
+func ruleBlockRecordCount(c *report.Ctx) {
+	p := c.P
+	c.Rule("block-record-count", "updateBlockRecord writes a record for all len(txHashes) transactions: it builds the value from the first hash and appends every further one through appendRawBlockRecord (which increments the counter), or stores a counter equal to len(txHashes)", 1)
+	f := fn(c, pkgTxmgr, "", "updateBlockRecord")
+	app := fn(c, pkgTxmgr, "", "appendRawBlockRecord")
+	vbr := fn(c, pkgTxmgr, "", "valueBlockRecord")
+	if f == nil || app == nil || vbr == nil {
+		return
+	}
+	key := sk(f) + ":counter"
+	// explicit counter stores
+	var ctr []ssa.Instruction
+	an.Instrs(f, func(in ssa.Instruction) {
+		cc := an.CallOf(in)
+		if cc == nil || cc.StaticCallee() == nil || !strings.HasSuffix(an.FuncKey(cc.StaticCallee()), "Endian).PutUint32") || len(cc.Args) < 3 {
+			return
+		}
+		if sl, ok := cc.Args[1].(*ssa.Slice); ok && sl.Low != nil {
+			if k, isK := constInt(sl.Low); isK && k == 40 {
+				ctr = append(ctr, in)
+			}
+		}
+	})
+	if len(ctr) > 0 {
+		okAll := true
+		for _, in := range ctr {
+			v := an.CallOf(in).Args[2]
+			d := p.Desc(stripConv(v))
+			isLenOfParam := false
+			if lc, ok := stripConv(v).(*ssa.Call); ok {
+				if b, isB := lc.Call.Value.(*ssa.Builtin); isB && b.Name() == "len" {
+					_, isLenOfParam = lc.Call.Args[0].(*ssa.Parameter)
+				}
+			}
+			if !isLenOfParam {
+				okAll = false
+				c.Fail(key, "the block record's transaction counter is set to "+d+", not to the number of hashes written (len(txHashes)): the last surviving transaction of another wallet drops out of the record, so a later reorg of that height does not unwind it", posOf(c, in))
+			}
+		}
+		if okAll {
+			c.OK(key, "counter = len(txHashes)", posOf(c, ctr[0]))
+		}
+		return
+	}
+	// incremental form: first via valueBlockRecord (counter 1), the rest via appendRawBlockRecord in a loop from 1 to len
+	as := calls(f, app)
+	if len(calls(f, vbr)) == 1 && len(as) == 1 && loopHeaderOf(as[0].Block()) != nil {
+		c.OK(key, "valueBlockRecord(first) + appendRawBlockRecord per further hash", posOf(c, as[0]))
+	} else {
+		c.Fail(key, "undecided: updateBlockRecord neither appends through appendRawBlockRecord nor stores a counter", p.Pos(f.Pos()))
+	}
+}
+
+// ruleSetNetRepoints (C14): SetNet replaces the version slice, it does not write through it.
+func ruleSetNetRepoints(c *report.Ctx) {
+	p := c.P
+	c.Rule("version-slice-not-written", "no function of hdkeychain writes through ExtendedKey.version (copy/append/element store): the slice is shared with the parent, the children and the network parameters' own arrays, so SetNet re-points it", 1)
+	ek := p.Type(pkgHD, "ExtendedKey")
+	if ek == nil {
+		return
+	}
+	n := 0
+	for _, f := range p.ModFuncs {
+		pk := an.FuncPkg(f)
+		if pk == nil || pk.Path() != pkgHD {
+			continue
+		}
+		an.Instrs(f, func(in ssa.Instruction) {
+			cc := an.CallOf(in)
+			if cc == nil {
+				return
+			}
+			b, ok := cc.Value.(*ssa.Builtin)
+			if !ok || b.Name() != "copy" {
+				return
+			}
+			n++
+			d := p.Desc(cc.Args[0])
+			if strings.HasSuffix(d, "ExtendedKey.version") || strings.Contains(d, "ExtendedKey.version[") {
+				c.Fail(sk(f)+":copy-into-version", sk(f)+" copies into the key's version slice: that slice is shared with the key's parent, its siblings, keys derived later and the global network parameters, so moving one key to another network rewrites the serialisation prefix of all of them (and of every later NewMaster)", posOf(c, in))
+			}
+		})
+	}
+	sn := fn(c, pkgHD, "ExtendedKey", "SetNet")
+	if sn != nil {
+		if len(fieldStores(sn, ek, "version")) >= 2 {
+			c.OK(sk(sn)+":re-points", "SetNet assigns a new slice to k.version", p.Pos(sn.Pos()))
+		} else {
+			c.Fail(sk(sn)+":re-points", "SetNet no longer assigns k.version", p.Pos(sn.Pos()))
+		}
+	}
+}
+
+// ruleMasterAcceptsEverySeed (C14): NewMaster rejects a seed only for its length or for an unusable derived key.
+func ruleMasterAcceptsEverySeed(c *report.Ctx) {
+	p := c.P
+	c.Rule("master-rejections", "every error return of NewMaster is under a test of len(seed) against the specification's bounds or of the derived scalar (zero / >= n): no property of the seed's content rejects it — BIP-32 defines a master key for every seed of legal length", 2)
+	f := fn(c, pkgHD, "", "NewMaster")
+	if f == nil {
+		return
+	}
+	n := 0
+	for _, b := range f.Blocks {
+		r, ok := b.Instrs[len(b.Instrs)-1].(*ssa.Return)
+		if !ok || p.ClassifyReturn(r, nil) != an.RetError {
+			continue
+		}
+		n++
+		key := siteKey(f, "error-return", n)
+		gs := p.Guards(b)
+		// the innermost guard decides
+		okG := false
+		var why string
+		if len(gs) > 0 {
+			g := gs[0]
+			check := func(a an.Atom) bool {
+				d := p.Desc(a.X)
+				if a.Y != nil {
+					d += " " + p.Desc(a.Y)
+				}
+				return strings.Contains(d, "len(param:[]byte)") || strings.Contains(d, "big.Int") || strings.Contains(d, "Cmp(") || strings.Contains(d, "Sign(")
+			}
+			if len(g.Or) > 0 {
+				okG = true
+				for _, o := range g.Or {
+					if !check(o) {
+						okG = false
+					}
+				}
+			} else {
+				okG = check(g)
+			}
+			why = g.Text
+		}
+		if okG {
+			c.OK(key, "under "+why, posOf(c, r))
+		} else {
+			c.Fail(key, "NewMaster rejects a seed under the test "+why+", which is neither the length bound nor the validity of the derived key: seeds BIP-32 defines a master node for (e.g. all-zero seeds) are refused", posOf(c, r))
+		}
+	}
+}
+
+// ruleGapLimitUnmodified (C12): restore and issue use the same, configured gap limit.
+func ruleGapLimitUnmodified(c *report.Ctx) {
+	p := c.P
+	c.Rule("gap-limit-unmodified", "the gap limit the API hands to a restore (ImportWallet / ImportMnemonic parameters) is the configured Settings.AddressGapLimit itself — the value the issuing rule is enforced with — not a reduced figure", 1)
+	n := 0
+	for _, f := range p.ModFuncs {
+		pk := an.FuncPkg(f)
+		if pk == nil || pk.Path() != pkgAPI {
+			continue
+		}
+		an.Instrs(f, func(in ssa.Instruction) {
+			st, ok := in.(*ssa.Store)
+			if !ok {
+				return
+			}
+			fa, ok := st.Addr.(*ssa.FieldAddr)
+			if !ok {
+				return
+			}
+			stt := derefStructT(fa.X.Type())
+			if stt == nil || stt.Field(fa.Field).Name() != "AddressGapLimit" {
+				return
+			}
+			if nn := an.NamedOf(fa.X.Type()); nn != nil && strings.Contains(nn.Obj().Name(), "Settings") {
+				return // the configuration object itself
+			}
+			n++
+			key := siteKey(f, "AddressGapLimit=", n)
+			d := p.Desc(stripConv(st.Val))
+			if strings.HasSuffix(d, "Settings.AddressGapLimit") {
+				c.OK(key, "configured gap limit", posOf(c, in))
+			} else {
+				c.Fail(key, "the restore is given the gap limit "+d+" while addresses are issued under Settings.AddressGapLimit: the restore stops scanning earlier than the issuing rule allows unfunded addresses, so funded addresses near the end of the window are not rediscovered and are later issued again", posOf(c, in))
+			}
+		})
+	}
+	if n == 0 {
+		c.Fail("api:AddressGapLimit", "anchor lost: no API handler passes a gap limit to a restore", "")
+	}
+}
+
+// ruleExternalScanAlwaysRuns (C12): a mnemonic restore always scans the external branch.
+func ruleExternalScanAlwaysRuns(c *report.Ctx) {
+	p := c.P
+	c.Rule("external-scan-default", "ImportKeystoreWithMnemonic raises an external index hint of 0 to 1 whatever the internal hint is: createManagerKeyScope skips a branch whose child number is 0, and the external branch is where every receive address lives", 1)
+	f := fn(c, pkgKeystore, "KeystoreManager", "ImportKeystoreWithMnemonic")
+	if f == nil {
+		return
+	}
+	n := 0
+	an.Instrs(f, func(in ssa.Instruction) {
+		st, ok := in.(*ssa.Store)
+		if !ok {
+			return
+		}
+		fa, ok := st.Addr.(*ssa.FieldAddr)
+		if !ok || derefStructT(fa.X.Type()).Field(fa.Field).Name() != "ExternalChildNum" {
+			return
+		}
+		if k, isK := constInt(st.Val); !isK || k != 1 {
+			return
+		}
+		n++
+		key := siteKey(f, "ExternalChildNum=1", n)
+		extra := ""
+		for _, a := range p.GuardsOf(st) {
+			if strings.Contains(a.Text, "InternalChildNum") {
+				extra = a.Text
+			}
+		}
+		if extra == "" {
+			c.OK(key, "defaulted whenever the external hint is 0", posOf(c, in))
+		} else {
+			c.Fail(key, "the default external hint is applied only under "+extra+": a restore with external hint 0 and a non-zero internal hint skips the external scan, rediscovers no receive address and starts issuing again at index 0", posOf(c, in))
+		}
+	})
+	if n == 0 {
+		c.Fail(sk(f)+":ExternalChildNum=1", "anchor lost: the external hint is no longer defaulted", p.Pos(f.Pos()))
+	}
+}
